@@ -329,6 +329,16 @@ def replay(chk, h, c):
                 worst = max(worst, 1.0)
             else:
                 worst = max(worst, np.abs(got - ref).max() - 1e-5)
+            # special magnitudes: nearly coincident (not coincident) levels averaged over a short window at a late time -- |omega (t1-t0)| ~ 1e-9 while
+            # omega t0 ~ 1: the average is (cos, sin)(omega t_mid) to 1e-12; the library's own cancellation error there is ~1e-7
+            hs = np.zeros(n)
+            for q, k in enumerate(diag_indices(d)):
+                hs[k] = 1e-3 * (0.7 + 0.45 * q)
+            t0s, t1s = 1000.0, 1000.0 + 1e-6
+            rets, os_ = h.native('h_prep_range', [I(d), Buf('h', hs), D(t0s), D(t1s), Buf('buf', [np.nan] * (2 * npairs))])
+            refs = np.array(base(hs, 0.5 * (t0s + t1s)))
+            gs = np.array(os_['buf'])
+            worst = max(worst, 1.0 if np.isnan(gs).any() else float(np.abs(gs - refs).max()) - 1e-4)
             continue
         tt = (tr or {}).get('t', float(rng.uniform(-2, 2)))
         if kind == 'avg':
